@@ -427,3 +427,4 @@ not_reproduced()
 
 # level text addendum (cases added after the seeded-change rounds)
 LEVEL_TEXT = LEVEL_TEXT + ' Also: AGC for every whitening term in [1e-8, 1/2], padded k-filter groups, car called twice.'
+LEVEL_TEXT = LEVEL_TEXT + " Round 6: destripe with the header of another probe generation / a hand-made header and neuropixel_version left at its default (the shift undone is the header's)."
